@@ -446,7 +446,7 @@ def main(tier: str) -> int:
             tasks.append({"kind": "char", "n": nchar, "file_mode": fm, "what": "tokens", "prefix": list(pre)})
     # (c) parse() end to end on the alphabet ( ) a ; \n space [tab]
     alpha = [40, 41, 97, 59, 10, 32, 9]
-    nparse = 5 if tier == "quick" else 7
+    nparse = 5 if tier == "quick" else 6
     for fm in (False, True):
         for n in range(0, nparse + 1):
             if n == nparse:
@@ -515,7 +515,9 @@ def main(tier: str) -> int:
         "exhaustive": True,
         "bounds": {"char_level": f"all ASCII strings of length <= {nchar}, string and file constructor",
                    "parse_end_to_end": f"all strings of length <= {nparse} over ( ) a ; LF space TAB, both constructors",
-                   "token_level": f"all token lists of length <= {ntok} over '(' ')' atom",
+                   "token_level": f"all token lists of length <= {ntok} over '(' ')' atom (one-character tokens, symbolic)",
+                   "token_level_concrete": f"every well-formed token list of <= {9 if tier == 'quick' else 10} tokens over the atoms "
+                                           f"a, b, ab: {len(lists)} lists run concretely against the reference tree",
                    "outside": "non-ASCII text, longer inputs, encoding errors of open(); composition tokenizer o reader "
                               "beyond the end-to-end bound is argued, not mechanised"},
         "functions_executed_symbolically": ["PDDLTokenizer.__init__ (pddl_str and file_path)", "PDDLTokenizer._is_comment_line",
